@@ -47,12 +47,21 @@ CHECKS = {
     "C19": dict(ref="6/C19", tech="TLC on FwdDecl.tla (character-level transcription of write_forward_declarations checked against a stack acceptor on every name set of the universe; broken-writer negative control) + TLC-emitted and random name sets and grammar-generated type descriptions passed to the real generator, output tokenised and validated by TLC (TraceFwd.tla)",
                 text="Every set of <=3 qualified names over 39 names built from identifiers a, ab, b at <=3 namespace levels (9,920 sets; thorough also <=4 names and 5 identifiers on the model), random sets of up to 40 names of depth <=6, and type descriptions from a grammar of class names, fundamental types, pointers, references, templates, function types, std:: and yorel:: entities: the written text must be balanced and declare exactly the requested / generated class names, each once, in its namespace.",
                 note="cv-qualifiers and '(anonymous namespace)' are outside the stated grammar and not generated; compiling the output is not part of the quick check"),
+    "C11": dict(ref="6/C11", tech="TLC enumerates the program family of Args.tla (630 scenarios: parameter kind x inheritance shape x position x non-virtual category) and validates every generated program's report against Accept (TraceArgs.tla); programs compiled through the macro front end",
+                text="All 630 scenarios are generated, compiled with g++ (thorough: also clang++ and -O2) and run: inside the definition the virtual parameter must designate the D sub-object of the caller's object (self-identifying sub-objects; single, second-base, virtual-base and two-level inheritance), keep shared ownership, and the neighbouring non-virtual argument must be the same referent / value with 0 copies for references and rvalues and exactly the call-site copy for lvalues passed by value; move-only by-value parameters must compile; the return value must come back unchanged.",
+                note="the compiler's object model is the reference for the right address; the specification contributes the exhaustive enumeration and the acceptance condition; by-value move counts are recorded, not gated"),
     "C12": dict(ref="6/C12", tech="TLC on Offsets.tla (layout of slots_strides vs. the emitter's and the consistency check's indexing, arity 1..6, interleaved-reading negative control) + real generator output parsed and validated by TLC against the installed layout; methods compiled with mutable static_offsets<> dispatch through the static path and are validated like C01",
                 text="For random registries with methods of arity 1..4 (shapes with non-virtual and virtual_ptr parameters) under 9 policies: the numbers written by write_static_offsets must equal the installed slots and strides position by position; loaded into static_offsets<> they must give the oracle's outcome tables; under checked policies each single perturbed number must be reported (static slot / stride error) on every call; repeated after a second update.",
                 note="the generated header is emulated by specialisations with mutable arrays filled with the parsed numbers; compiling the emitted text is not part of this check"),
     "C13": dict(ref="6/C13", tech="TLC on Decode.tla (two-cursor model of the in-place decoder over the emitted layout; pre-repair variant as negative control) + real encode_dispatch_data output parsed, laid out exactly as declared and decoded by the real decoder with hook H4; fetch/store offsets and all post-decode outcome tables validated by TLC",
                 text="Random registries (v-tables not starting at slot 0, classes without entries, classes registered by several statements, uni- and multi-methods with error cells) under the three std-rtti policies: the emitted declaration must have non-negative sizes and no excess initialisers; every decoder fetch must lie in the encoded v-tables, every store in the decoded arrays, no store may overwrite a word fetched later; after decoding in a process where update never ran, every outcome table, error record and next slot must equal the oracle. Thorough repeats under AddressSanitizer with exact-size heap blocks.",
                 note="std-rtti policies only (the encoder demangles type_info names); the emitted text is parsed by the harness, not compiled"),
+    "C16": dict(ref="6/C16", tech="TLC on Concurrency.tla (callers reading the dispatch path cell by cell while an updater writes another policy's cells: NoRace, SequentialAnswer; same-policy updater as negative control) + multi-threaded executions under ThreadSanitizer whose per-thread observations are validated by TLC against the sequential specification",
+                text="8 threads (thorough 14) x 20,000 (60,000) seeded dispatches through resolve / operator() / virtual_ptr create-copy-use on three policies while a fourth policy is updated ~1,000 times concurrently; every distinct observation must equal the sequential oracle, the policies' statics must be unchanged after the concurrent phase, and ThreadSanitizer must report nothing; a negative control with the updater on a used policy must be reported and rejected.",
+                note="data-race freedom itself is established by ThreadSanitizer as recorder, not by TLC"),
+    "C20": dict(ref="6/C20", tech="TLC enumerates the family of Templates.tla (type lists x not_defined subsets; algebra of product / registered / aggregate split checked on each) and validates the logs of generated programs (product order, method catalog, dispatch of every tuple) with TraceTemplates.tla",
+                text="192 TLC-emitted scenarios (thorough: all 588) plus random ones with 1-3 lists of up to 4 of 5 classes, each compiled into real programs using use_definitions / product / not_defined, plus products of 513 elements (thorough: 500, 512, 513, 600; also clang++): product<> must enumerate the Cartesian product in order, the method's catalog must hold exactly the combinations not marked not_defined, each once, and every class tuple must dispatch accordingly.",
+                note="the compiler is the reference for template expansion; the specification contributes the family and the acceptance condition"),
     "C17": dict(ref="6/C17", tech="TLC trace validation of update reports against HasGap/HasAmbiguity over all and over concrete-only tuples (ReportOK in Yomm2.tla)",
                 text="Every registry of the bounded universes x assignments of abstract flags (all 2^N for N<=3; thorough: all) is updated and the returned report compared with an enumeration of all class tuples by the oracle; cells is compared with the number of multi-method cells the compiler object holds.",
                 note="iff-content of the report only (counts are not compared, the statement does not define them)"),
